@@ -32,7 +32,18 @@ fn open(dir: &PathBuf, key: &Option<String>, mode: ReadConsistency) -> std::io::
     b.build()
 }
 
-fn esc(s: &str) -> String { s.replace('\\', "\\\\").replace('"', "\\\"") }
+fn esc(s: &str) -> String {
+    let mut o = String::new();
+    for c in s.chars() {
+        match c {
+            '"' => o.push_str("\\\""),
+            '\\' => o.push_str("\\\\"),
+            c if (c as u32) < 0x20 || (c as u32) > 0x7e => { for u in c.encode_utf16(&mut [0u16; 2]).iter() { o.push_str(&format!("\\u{:04x}", u)); } }
+            c => o.push(c),
+        }
+    }
+    o
+}
 
 fn run(name: &str, mode_s: &str, ops: &[&str], base: &PathBuf) -> Result<(), String> {
     let mode = if mode_s == "strict" { ReadConsistency::StrictlyAtOnce } else {
